@@ -551,7 +551,13 @@ pub fn hex(b: &[u8]) -> String {
     b.iter().map(|x| format!("{:02x}", x)).collect()
 }
 
-pub const TEXT: &[char] = &['a', 'b', 'Z', '0', '_', ',', '.', '(', ')', ' ', 'é', 'ß', '漢', '\u{0301}'];
+pub const TEXT: &[char] = &[
+    'a', 'b', 'Z', '0', '_', ',', '.', '(', ')', ' ', 'é', 'ß', '漢', '\u{0301}',
+    // case mappings that change the UTF-8 length (dotless i -> I, fi ligature -> FI, I with dot -> i + U+0307)
+    '\u{0131}', '\u{FB01}', '\u{0130}',
+];
+/// targets of vi character searches (multi-byte ones included: `yf漢`)
+const CS_TARGETS: &[char] = &['a', 'b', ' ', 'é', ',', '漢', 'Z', '\u{0131}'];
 
 pub fn tok_char(c: char) -> String {
     let mut b = [0u8; 4];
@@ -673,7 +679,7 @@ fn vi_motion(rng: &mut Rng, out: &mut Vec<String>) {
     let m = *rng.pick(b"hlwbeWBE0$^jk;, ");
     if rng.chance(1, 6) {
         out.push(tok_char(*rng.pick(&['f', 't', 'F', 'T'])));
-        out.push(tok_char(*rng.pick(&['a', 'b', ' ', 'é'])));
+        out.push(tok_char(*rng.pick(CS_TARGETS)));
     } else {
         out.push(format!("{:02x}", m));
     }
@@ -843,7 +849,7 @@ fn doc_vi_motion(rng: &mut Rng, out: &mut Vec<String>) {
     }
     if rng.chance(1, 5) {
         out.push(tok_char(*rng.pick(&['f', 't', 'F', 'T'])));
-        out.push(tok_char(*rng.pick(&['a', 'b', ' ', 'é', ','])));
+        out.push(tok_char(*rng.pick(CS_TARGETS)));
     } else {
         out.push(format!("{:02x}", *rng.pick(b"hlwbeWBE0$^;, jk\x08\x7f")));
     }
@@ -862,7 +868,7 @@ fn doc_vi_cmd(rng: &mut Rng, toks: &mut Vec<String>, insert_mode: &mut bool, fas
         0..=27 => {
             if rng.chance(1, 5) {
                 toks.push(tok_char(*rng.pick(&['f', 't', 'F', 'T'])));
-                toks.push(tok_char(*rng.pick(&['a', 'b', ' ', 'é', ','])));
+                toks.push(tok_char(*rng.pick(CS_TARGETS)));
             } else {
                 toks.push(format!("{:02x}", *rng.pick(b"hlwbeWBE0$^;, \x08\x7f")));
             }
@@ -890,8 +896,35 @@ fn doc_vi_cmd(rng: &mut Rng, toks: &mut Vec<String>, insert_mode: &mut bool, fas
         }
         83..=87 => toks.push(rng.pick(DOC_ESCAPES).to_string()),
         88..=91 => toks.push(rng.pick(&["14", "15", "17", "04", "1b5b337e"]).to_string()),
-        92..=95 => toks.push(rng.pick(&["70", "50", "75", "2e", "6a", "6b", "10", "0e"]).to_string()),
+        92 => toks.push(rng.pick(&["70", "50", "75", "2e", "6a", "6b", "10", "0e"]).to_string()),
         96 => toks.push("03".to_string()),
+        93..=95 | 97 | 98 => {
+            // operator x character search from the start (forward) or the end (backward) of the line,
+            // so that the target is likely to be found; multi-byte targets included
+            let fwd = rng.chance(1, 2);
+            let target = *rng.pick(&['é', '漢', '\u{0131}', 'é', '漢', ',', 'a', ' ']);
+            if rng.chance(2, 3) {
+                // make sure the target exists: append / prepend it first, leave insert mode with
+                // Esc glued to `0` / `$` (fast command mode)
+                toks.push(if fwd { "41" } else { "49" }.to_string());
+                toks.push(tok_char(target));
+                toks.push(if fwd { "1b30" } else { "1b24" }.to_string());
+            } else {
+                toks.push(if fwd { "30" } else { "24" }.to_string());
+            }
+            let op = *rng.pick(b"dcyyy");
+            toks.push(format!("{:02x}", op));
+            if rng.chance(1, 5) {
+                toks.push("32".to_string());
+            }
+            toks.push(tok_char(*rng.pick(if fwd { &['f', 'f', 't'] } else { &['F', 'F', 'T'] })));
+            toks.push(tok_char(target));
+            if op == b'c' {
+                *insert_mode = true;
+            } else if op == b'y' {
+                toks.push(rng.pick(&["50", "70"]).to_string());
+            }
+        }
         _ => toks.push("0d".to_string()),
     }
 }
@@ -953,6 +986,30 @@ fn kill_keys(rng: &mut Rng, vi: bool, insert_mode: &mut bool, out: &mut Vec<Stri
             *insert_mode = false;
             return;
         }
+        if rng.chance(3, 10) {
+            // a run of kills with nothing in between (character searches in both directions
+            // over-represented: their direction decides append / prepend), then a paste probe
+            let k = 2 + rng.below(2);
+            for _ in 0..k {
+                match rng.below(10) {
+                    0..=4 => {
+                        out.push("64".to_string());
+                        out.push(tok_char(*rng.pick(&['f', 't', 'F', 'T', 'F', 'T'])));
+                        out.push(tok_char(*rng.pick(CS_TARGETS)));
+                    }
+                    5..=8 => {
+                        out.push("64".to_string());
+                        vi_motion(rng, out);
+                    }
+                    _ => out.push("44".to_string()),
+                }
+            }
+            out.push(rng.pick(&["50", "70"]).to_string());
+            if rng.chance(1, 3) {
+                out.push("75".to_string());
+            }
+            return;
+        }
         match rng.below(10) {
             0..=4 => {
                 if rng.chance(1, 4) {
@@ -998,7 +1055,72 @@ fn kill_keys(rng: &mut Rng, vi: bool, insert_mode: &mut bool, out: &mut Vec<Stri
         60..=64 => out.push("1b79".to_string()),
         65..=79 => out.push(rng.pick(&["01", "05", "02", "06", "1b62", "1b66"]).to_string()),
         80..=82 => out.push("0c".to_string()),
+        83..=89 => {
+            // a kill or a yank, then an incremental search (or a completion) that is aborted, or
+            // left with a kill / yank-pop / yank key: the sub-loop must not keep the kill sequence open
+            out.push(rng.pick(&["17", "0b", "15", "19", "1b64"]).to_string());
+            out.push(rng.pick(&["12", "12", "13", "09"]).to_string());
+            if rng.chance(2, 3) {
+                out.push(tok_char(*rng.pick(&['a', 'b', ' ', ','])));
+            }
+            out.push(rng.pick(&["07", "07", "17", "0b", "1b79", "19", "1b64"]).to_string());
+            if rng.chance(1, 2) {
+                out.push(rng.pick(&["17", "0b"]).to_string());
+            }
+            out.push("19".to_string());
+            if rng.chance(1, 3) {
+                out.push("1b79".to_string());
+            }
+        }
         _ => out.push(tok_char(*rng.pick(TEXT))),
+    }
+}
+
+/// C05 in vi mode: insert sessions (one open undo group each) with the Undo probe C-_ inside them,
+/// `u` / counted `u` / `.` between them, operators that open their own groups
+fn vi_undo_keys(rng: &mut Rng, insert_mode: &mut bool, out: &mut Vec<String>) {
+    if *insert_mode {
+        match rng.below(100) {
+            0..=49 => out.push(tok_char(*rng.pick(&['a', 'b', 'Z', '0', ' ', ',', 'é', '漢']))),
+            50..=69 => {
+                out.push("1f".to_string());
+                if rng.chance(1, 2) {
+                    out.push("1f".to_string());
+                }
+            }
+            70..=77 => out.push(rng.pick(&["7f", "08", "17", "15", "19"]).to_string()),
+            _ => {
+                // leave insert mode: ESC glued to a command key
+                let c = *rng.pick(b"hb0ulxhb0");
+                out.push(format!("1b{:02x}", c));
+                *insert_mode = false;
+            }
+        }
+    } else {
+        match rng.below(100) {
+            0..=19 => out.push("75".to_string()),
+            20..=24 => {
+                out.push(format!("{:02x}", b'2' + rng.below(2) as u8));
+                out.push("75".to_string());
+            }
+            25..=49 => {
+                out.push(format!("{:02x}", *rng.pick(b"aAiIsSC")));
+                *insert_mode = true;
+            }
+            50..=59 => {
+                out.push("63".to_string());
+                out.push(format!("{:02x}", *rng.pick(b"wbe$0l")));
+                *insert_mode = true;
+            }
+            60..=71 => {
+                out.push("64".to_string());
+                out.push(format!("{:02x}", *rng.pick(b"wbe$0ldh")));
+            }
+            72..=79 => out.push(format!("{:02x}", *rng.pick(b"xXDpP~"))),
+            80..=84 => out.push("2e".to_string()),
+            85..=89 => out.push("1f".to_string()),
+            _ => out.push(format!("{:02x}", *rng.pick(b"hlwb0$"))),
+        }
     }
 }
 
@@ -1187,7 +1309,7 @@ pub fn gen_profile(ctx: &GenCtx, tag: &str, profile: Profile, sink: &mut dyn FnM
     };
     for _ in 0..n {
         let vi = match profile {
-            Profile::Undo => rng.chance(1, 6),
+            Profile::Undo => rng.chance(1, 4),
             Profile::Kill => rng.chance(1, 4),
             Profile::Doc => rng.chance(1, 2),
             _ => rng.chance(2, 5),
@@ -1285,6 +1407,10 @@ pub fn gen_profile(ctx: &GenCtx, tag: &str, profile: Profile, sink: &mut dyn FnM
             }
             if profile == Profile::Undo && !vi && rng.chance(4, 5) {
                 undo_keys(&mut rng, &mut toks);
+                continue;
+            }
+            if profile == Profile::Undo && vi && rng.chance(4, 5) {
+                vi_undo_keys(&mut rng, &mut insert_mode, &mut toks);
                 continue;
             }
             if vi {
